@@ -676,6 +676,8 @@ void OPNMIDIplay::realTime_Controller(uint8_t channel, uint8_t type, uint8_t val
 {
     if(static_cast<size_t>(channel) >= m_midiChannels.size())
         channel = channel % 16;
+    if(value > 127) // controller values are 7-bit; the volume models index their tables with them
+        value = 127;
     switch(type)
     {
     case 1: // Adjust vibrato
